@@ -18,7 +18,8 @@ def check_pos(data, p):
     if off > len(data):
         return f"offset {off} beyond input"
     if line is None:
-        return None
+        # text input: every position carries line/column (a position that lost them locates nothing for the user)
+        return f"position {off} carries no line/column"
     l, c = pos_spec(data, off)
     if (l, c) != (line, col):
         return f"position {off}: line/col {line}:{col}, expected {l}:{c}"
